@@ -16,7 +16,7 @@ ORACLE = ("oracle = 40-digit mpmath evaluation / derivative of the generated exp
 CHECKS = {
     "C01": dict(
         technique="runtime monitor on Model.model return values vs independent high-precision value oracle, random programs x inputs x CSE settings",
-        text="Every observed return value of the compiled Python model, over randomly generated model definitions, named input points and both CSE settings, is compared name-by-name with an independent 40-digit evaluation of the user's expression; held means no observed execution deviated. Includes angle-wrap idioms (asin(sin u) ...) and directed probes of the exp-overflow region (known finding cse-simplify:exp-overflow).",
+        text="Every observed return value of the compiled Python model, over randomly generated model definitions, named input points and both CSE settings, is compared name-by-name with an independent 40-digit evaluation of the user's expression; held means no observed execution deviated. Includes angle-wrap idioms (asin(sin u) ...) and directed probes of the exp-overflow region (known finding cse-simplify:exp-overflow) and of the proactive_simplify witness (known finding proactive-simplify:wrong-value).",
         ref="2 C01", note=ORACLE),
     "C02": dict(
         technique="generated C++ compiled under ASan/UBSan and executed; outputs compared with value/derivative oracle; NaN-poisoned matrices",
@@ -28,7 +28,7 @@ CHECKS = {
         ref="2 C03", note=ORACLE),
     "C04": dict(
         technique="runtime contract monitor on process_model (direct, adapter-driven and runtime-driven calls) vs numpy reference built from oracle Jacobians; purity and idempotence by byte comparison",
-        text="Every monitored prediction is checked against x'=f(x,u), P'=GPG^T+VMV^T with G,V from the independent oracle and M from the user's noise dict by name; inputs must be byte-identical after the call and a repeated call bit-identical. dt ranges over ordinary, zero, sub-nanosecond and negative steps.",
+        text="Every monitored prediction is checked against x'=f(x,u), P'=GPG^T+VMV^T with G,V from the independent oracle and M from the user's noise dict by name; inputs must be byte-identical after the call and a repeated call bit-identical. dt ranges over ordinary, zero, sub-nanosecond and negative steps; short steps of problems in small units are judged at their own magnitude. One directed probe reproduces the known finding proactive-simplify:wrong-value.",
         ref="2 C04", note=ORACLE),
     "C05": dict(
         technique="runtime contract monitor on sensor_model vs numpy Kalman reference (oracle H, h; solve-based), recorded innovation and S checked, multi-reading sensors",
